@@ -215,6 +215,16 @@ def finite_rule(ck, F):
     ck.floor("C14.parse::<f64> sites", n, 2)
 
 
+def escapes_proper(rd):
+    """Does the renderer transform the text (replace / escape) before writing it?"""
+    return any(c.callee.split("::")[-1] in ("replace", "escape_default", "escape_debug") for c in rd.calls())
+
+
+def controlling_switches_(body, bb):
+    from lib import controlling_switches
+    return controlling_switches(body, bb)
+
+
 def data_inverse(ck, F):
     rd = F.one("data::data_elements_to_string::{closure#0}") or F.one("data_elements_to_string::{closure#0}")
     pc = F.one("DataParser::parse_char")
@@ -247,6 +257,9 @@ def data_inverse(ck, F):
     from lib import path_records
     unq = 0
     n_str = 0
+    raw_when_quote = 0      # string paths written raw on the true arm of contains('"')
+    quoted_with_quote = 0   # string paths written between quotes although the item may contain a quote
+    has_contains_test = False
     for r in path_records(rd):
         is_str = any(val == "String" for (_t, _ps, val, _s) in r["decisions"])
         if not is_str:
@@ -260,21 +273,63 @@ def data_inverse(ck, F):
                     if e[0] == "const" and e[1].get("text", "").startswith('b"') and \
                             tables.fmt_template(e[1]["text"]) == ['"', None, '"']:
                         quoted = True
-        if not quoted:
-            unq += 1
+        # outcome of a `string.contains('"')` test on this path, if any
+        contains_quote = None
+        for (_t, _ps, val, subj) in r["decisions"]:
+            cs = [x for x in expr_calls(subj) if x[1].endswith("<impl str>::contains") or x[1].endswith("String::contains")
+                  or x[1].split("::")[-1] == "contains"]
+            for x in cs:
+                pat = strip_expr(x[2][1]) if len(x[2]) > 1 else None
+                if pat is not None and pat[0] == "const" and (pat[1].get("int") == 34 or pat[1].get("str") == '"' or pat[1].get("text") in ("'\"'", '"\\""')):
+                    has_contains_test = True
+                    if isinstance(val, bool):
+                        contains_quote = val
+        if quoted:
+            if contains_quote is not False:
+                quoted_with_quote += 1
+        else:
+            if contains_quote is True:
+                raw_when_quote += 1
+            else:
+                unq += 1
     ck.require(n_str >= 1 and unq == 0, "C14:DATA-RENDER:strings-always-quoted", "DATA renderer vs parser",
-               "every path that renders a string item writes it between double quotes",
-               "the DATA renderer can write a string item without quotes (%d of %d String paths): an item that looks like a "
-               "number (`DATA \"007\"`) or carries significant blanks reloads as a different item" % (unq, n_str), rd.span)
-    if quotes_always and not escapes and pushes_quote:
+               "every path that renders a string item writes it between double quotes"
+               + (" (or raw, on the arm where the item contains a double quote: %d paths)" % raw_when_quote if raw_when_quote else ""),
+               "the DATA renderer can write a string item without quotes (%d of %d String paths) although it contains no double "
+               "quote: an item that looks like a number (`DATA \"007\"`) or carries significant blanks reloads as a different item"
+               % (unq, n_str), rd.span)
+    if pushes_quote and not escapes_proper(rd) and quoted_with_quote:
         ck.bad("C14:DATA-QUOTE:data::data_elements_to_string", "DATA renderer vs parser",
-               "the DATA renderer wraps every string item in double quotes unconditionally, but DataParser::parse_char can "
-               "append a '\"' to a non-empty unquoted item: `DATA hello \"there\"` lists as `DATA \"hello \"there\"\"`, which "
-               "reloads as different items", rd.span)
+               "the DATA renderer wraps string items in double quotes even when they may contain one (%d such paths), and "
+               "DataParser::parse_char can append a '\"' to a non-empty unquoted item: `DATA hello \"there\"` lists as "
+               "`DATA \"hello \"there\"\"`, which reloads as different items" % quoted_with_quote, rd.span)
     else:
         ck.ok("C14:DATA-QUOTE:data::data_elements_to_string", "DATA renderer vs parser",
               "string items the parser can produce are rendered so that they re-parse to themselves "
-              "(quotes_always=%s escapes=%s parser_can_embed_quote=%s)" % (quotes_always, escapes, pushes_quote))
+              "(parser_can_embed_quote=%s, quoted paths that may hold a quote=%d, raw-on-quote paths=%d)" %
+              (pushes_quote, quoted_with_quote, raw_when_quote))
+    if raw_when_quote:
+        # the raw spelling re-parses to the same item only because such an item came from the unquoted branch of the parser:
+        # trimmed, non-empty, not starting with a quote, free of `,` and `:` -- quoted items can never contain a quote
+        qpush = False
+        for c in pc.calls():
+            if c.callee.endswith("String::push") and "current_element" in show(pc.expr(c.args[0])):
+                for (sb, subj, names) in controlling_switches_(pc, c.bb):
+                    if names and "InDoubleQuotedString" in names.values():
+                        info = pc.switch_info(sb)
+                        tq = [info[1].get(v) for v, n in names.items() if n == "InDoubleQuotedString"]
+                        if tq and tq[0] is not None and pc.dominates(tq[0], c.bb):
+                            # inside the quoted state: is this push on the arm for the quote character itself?
+                            for b2 in sorted(pc.reachable()):
+                                t2 = pc.term(b2)
+                                if t2["k"] == "switch" and t2.get("dty") == "char" and pc.dominates(tq[0], b2):
+                                    for v2, tgt2 in t2["targets"]:
+                                        if int(v2) == 34 and pc.dominates(tgt2, c.bb):
+                                            qpush = True
+        ck.require(not qpush, "C14:DATA-QUOTE:quoted-items-hold-no-quote", "DATA renderer vs parser",
+                   "inside a quoted item the quote character is never appended (it ends the item)",
+                   "the DATA parser can now store a double quote inside a quoted item: rendering such an item raw no longer "
+                   "re-parses to the same item", pc.span)
     # numbers: an unquoted item is a number exactly when str::parse::<f64> accepts it -- the renderer writes numbers
     # with f64's Display (to_string), whose output parse::<f64> always accepts (std round trip, trusted), so ANY extra
     # condition on the number arm makes some rendered number reload as a string
